@@ -26,11 +26,20 @@ RULE = ("histories of page visits on one long-lived context: corpus = token soup
         "mw.text/mw.title fields, string metatable, required helper, loadData table, next/pairs, package.loaded, NAMESPACE_DATA) and "
         "READER modules that report what they see; visit = start_page + one of parse / parse(pre_expand) / parse(expand_all) / expand "
         "/ expand(pre_expand, selection) / parse+node_to_wikitext; histories = random orders with repetition (<=60) + all ordered "
-        "(mutator, reader) pairs, same-page and next-page; foreign-option contexts created before the history context. "
+        "(mutator, reader) pairs, same-page and next-page; foreign-option contexts created before the history context (one of them runs Lua "
+        "on the same database). Further mutator classes: fields/functions set on the tables that require('math'|'table'|'mw'|'mw_text'|...) "
+        "returns, on what the sandbox internals _cached_mod/_save_mod hand out, and a module that is the FIRST user of the lazily loaded "
+        "mw.* libraries and then replaces functions in its OWN copies of mw.ustring/string/table/the global functions (reader reports the "
+        "results of ~12 library calls). Module-level counters in a plain module, in modules whose NAME is on the hard-coded "
+        "retained_modules list (Module:utils via #invoke, Module:utilities via require; tagged class). math.random / math.randomseed "
+        "pages. NESTED invocations: the mutation followed by frame:preprocess('{{#invoke:reader|f}}') in the same function, and sibling "
+        "mutator|reader invocations inside one frame:preprocess / two frame:expandTemplate calls. "
         "non-trivial = distinct (predecessor visit, visit) pair compared")
 ASSUMPTIONS = ["baseline = the same visit in a brand-new default Wtp on the same database, in a process that never created a foreign-option context",
                "hex addresses in Lua traces are normalised; time-dependent functions are not in the corpus",
-               "module names avoid the hard-coded retained_modules list (those are cached by design)",
+               "module names avoid the hard-coded retained_modules list, except the tagged class lua-counter-retained-name (Module:utils, Module:utilities), "
+               "whose leaks get one signature of their own",
+               "math.random: the fresh-process baseline is the reference (first draw of a never-seeded generator)",
                "Lua stand-ins for the absent Scribunto ustring/libraryUtil files"]
 WALL = {"quick": 900, "thorough": 5400}
 OPS = ["parse", "parse_pre", "parse_all", "expand", "expand_sel", "wikitext"]
@@ -58,7 +67,34 @@ MUTATORS = {
     "tostring-redefined": "tostring = function() return 'HACK' end",
     "mw.text.trim-replaced": "mw.text.trim = function() return 'HACK' end",
     "reset-env": "if _lua_reset_env then pcall(_lua_reset_env) end",
+    # --- library tables reached through require() / the sandbox's module cache
+    "require-library-field": "for _, n in ipairs(%(libs)s) do local ok, m = pcall(require, n) if ok and type(m) == 'table' then m.leakR = 'LEAK' end end",
+    "require-library-function-replaced": "require('table').maxn = function() return 'HACK' end require('math').floor = function() return 'HACK' end",
+    "cached-mod-field": "if _cached_mod then for _, n in ipairs(%(libs)s) do local m = _cached_mod(n) if type(m) == 'table' then m.leakC = 'LEAK' end end end",
+    "save-mod-library-replaced": "if _save_mod then _save_mod('libraryUtil', {leakS = 'LEAK'}) end",
+    # --- the module is the first user of the lazily loaded libraries, then changes only its OWN environment
+    "firstuse-own-mw.ustring": "%(touch)s for k, v in pairs(mw.ustring) do if type(v) == 'function' then mw.ustring[k] = function() return 'HACK' end end end",
+    "firstuse-own-string": "%(touch)s for k, v in pairs(string) do if type(v) == 'function' then string[k] = function() return 'HACK' end end end",
+    "firstuse-own-table": "%(touch)s for k, v in pairs(table) do if type(v) == 'function' then table[k] = function() return 'HACK' end end end",
+    "firstuse-own-globals": "%(touch)s for _, k in ipairs({'type', 'tostring', 'tonumber', 'select', 'ipairs', 'pairs', 'next', 'unpack', 'rawget', 'rawset', "
+                            "'setmetatable', 'getmetatable', 'error', 'assert', 'mw_jsondecode_python'}) do _G[k] = function() return 'HACK' end end",
 }
+# mutators that reach state SHARED by all invocations (library tables handed out by require / by the module-cache accessors, the
+# environment the lazily loaded libraries run in): what a sibling invocation sees of them has nothing to do with nesting, so their
+# leaks keep the plain per-field signature on nested pages too, and the reader-inside-mutator form is left out for them
+NOT_NESTING_SPECIFIC = ("require-library-", "cached-mod-", "save-mod-", "firstuse-own-")
+LIBS = ["math", "table", "mw", "mw_text", "mw_title", "mw_hash", "mw_html", "mw_language", "mw_site", "libraryUtil", "ustring:ustring"]
+_LIBS_LUA = "{" + ", ".join("'%s'" % n for n in LIBS) + "}"
+_TOUCH = ("pcall(function() local _ = mw.text.trim(' a ') .. mw.ustring.upper('a') .. tostring(mw.html.create('b')) .. mw.title.new('X').text "
+          ".. mw.language.getContentLanguage():lc('A') .. tostring(mw.site.siteName) .. tostring(mw.text.jsonDecode('[1]')[1]) end)")
+MUTATORS = {k: (v % {"libs": _LIBS_LUA, "touch": _TOUCH} if "%(" in v else v) for k, v in MUTATORS.items()}
+# library calls whose results the reader reports (name, Lua expression, clean result with non-alphanumerics removed);
+# none of them depends on the page title or on the language edition
+LIBCALLS = [("split", "mw.text.split('a,b', ',')[2]", "b"), ("nowiki", "mw.text.nowiki('[x]')", "lsqbxrsqb"),
+            ("enc", "mw.text.encode('<a>')", "ltagt"), ("json", "mw.text.jsonEncode({1, 2})", "12"), ("jsond", "mw.text.jsonDecode('[1,2]')[2]", "2"),
+            ("html", "tostring(mw.html.create('b'):attr('id', 'z'):wikitext('x'))", "bidzxb"), ("title", "mw.title.new('Foo bar').text", "Foobar"),
+            ("lc", "mw.language.getContentLanguage():lc('AB')", "ab"), ("ucfirst", "mw.language.getContentLanguage():ucfirst('ab')", "Ab"),
+            ("upper", "mw.ustring.upper('ab')", "AB"), ("usub", "mw.ustring.sub('abcd', 2, 3)", "bc")]
 READER = r'''local e = {}
 function e.f(frame)
   local r = {}
@@ -70,16 +106,48 @@ function e.f(frame)
   add("trim", mw.text.trim("  t  ")) add("arg", frame.args.n)
   local c = 0 for k, v in pairs({1, 2, 3}) do c = c + 1 end add("pairs", c)
   local c2 = 0 local k = next({5, 6}) if k ~= nil then c2 = 1 end add("next", c2)
+  local rq, cm = '', ''
+  for _, n in ipairs(LIBSLIST) do
+    local ok, m = pcall(require, n)
+    if ok and type(m) == 'table' then
+      if m.leakR ~= nil then rq = rq .. (n:gsub('[^%w]', '')) end
+      if m.leakC ~= nil then cm = cm .. (n:gsub('[^%w]', '')) end
+    end
+  end
+  add("reqlib", rq == '' and 'none' or rq) add("cachedmod", cm == '' and 'none' or cm)
+  do local ok, v = pcall(function() return require('libraryUtil').leakS end) if ok then add("savedmod", v) else add("savedmod", 'ERR') end end
+  do local ok, v = pcall(function() return table.maxn({5, 6, 7}) end) add("maxn", ok and v or 'ERR') end
+  do local ok, v = pcall(function() return math.floor(2.5) end) add("floor", ok and v or 'ERR') end
+  local lc = ''
+  for _, f in ipairs({LIBCALLFNS}) do
+    local ok, v = pcall(f)
+    lc = lc .. (ok and (tostring(v):gsub('[^%w]', '')) or 'ERR') .. 'x'
+  end
+  add("libcall", lc)
   local acc = 0 for i = 1, 300000 do acc = acc + i % 3 end
-  return table.concat(r, ",")
+  local out = '' for i = 1, #r do out = out .. (i > 1 and ',' or '') .. r[i] end
+  return out
 end
 return e'''
+READER = READER.replace("LIBSLIST", _LIBS_LUA).replace("LIBCALLFNS", ", ".join("function() return %s end" % x for _, x, _ in LIBCALLS))
+COUNTER = "local n = 0\nlocal e = {}\nfunction e.inc(frame) n = n + 1 return '%s=' .. n end\nreturn e"
+RND = "local e = {}\nfunction e.pick(frame) return 'rnd' .. math.random(1, 1000000) end\nfunction e.seed(frame) math.randomseed(42) return 'seeded' end\nreturn e"
+NEST = """local e = {}
+function e.sib(frame) return frame:preprocess('{{#invoke:mut ' .. frame.args[1] .. '|f}}|{{#invoke:reader|f|n=sib}}') end
+function e.sibt(frame) return frame:expandTemplate{title = 'wm', args = {frame.args[1]}} .. '|' .. frame:expandTemplate{title = 'wr', args = {'x'}} end
+function e.two(frame) return frame:preprocess('{{#invoke:cnt|inc}}|{{#invoke:cnt|inc}}') end
+return e"""
+RND_PAGE = {"name": "Rnd", "kind": "lua-random", "text": "{{#invoke:rnd|pick}}"}
 
 
 def floors(tier):
     return {"oracle.visit==fresh-context": 1500, "sets.mutator-reader-pairs": 40, "sets.page-op-pairs": 150,
             "counters.visit.kind.lua-reader": 100, "counters.visit.kind.soup-open": 50, "counters.visit.kind.raises": 30, "counters.visits-that-raised": 20, "counters.foreign-contexts-created": 4, "counters.virtual-time-jumps": 100, "counters.config-victim-visits.ext": 9, "counters.config-victim-visits.alias": 9,
-            "sets.ops": 6}
+            "sets.ops": 6,
+            "counters.visit.kind.lua-nested-reader-inside-mutator": 20, "counters.visit.kind.lua-nested-siblings": 25,
+            "counters.visit.kind.lua-nested-siblings-in-templates": 25, "counters.visit.kind.lua-counter-retained-name": 48,
+            "counters.visit.kind.lua-random": 48, "counters.visit.kind.lua-counter": 5, "oracle.draw-after-seed==fresh-draw": 12,
+            "counters.foreign-contexts-that-ran-lua": 12}
 
 
 def shards(tier, seed):
@@ -121,7 +189,38 @@ def corpus(rng):
                                 ("{|\n|", "\n|}"), ("[[a|{{ta|", "}}]]")]):
         pages.append({"name": "Raise%d" % i, "kind": "raises", "text": "* l\n" + o * 700 + "z" + c * 700 + "\n* m"})
     pages.append({"name": "LuaErr", "kind": "lua-error", "text": "{{#invoke:reader|nofn}} {{#invoke:nomod|f}} {{#invoke:bad|f}}"})
+    pages.append({"name": "Cnt plain", "kind": "lua-counter", "text": "{{#invoke:cnt|inc}} {{#invoke:cnt|inc}} {{wc}}"})
+    pages.append(RND_PAGE)
     return pages
+
+
+def dedicated(idx):
+    """Histories outside the random corpus (their alarms would crowd the random histories), split over the 16 shards."""
+    out = []
+    rd = {"name": "Reader", "kind": "lua-reader", "text": "{{#invoke:reader|f|n= v }}"}
+    # nested invocations: reader invoked (through frame:preprocess) by the function that made the change; sibling invocations
+    # inside one frame:preprocess / inside two frame:expandTemplate calls
+    nested = []
+    for k in MUTATORS:
+        if not k.startswith(NOT_NESTING_SPECIFIC):
+            nested.append({"name": "Nest " + k, "kind": "lua-nested-reader-inside-mutator:" + k, "text": "{{#invoke:mut %s|g}}" % k})
+        nested.append({"name": "NestSib " + k, "kind": "lua-nested-siblings:" + k, "text": "{{#invoke:nest|sib|%s}}" % k})
+        nested.append({"name": "NestSibT " + k, "kind": "lua-nested-siblings-in-templates:" + k, "text": "{{#invoke:nest|sibt|%s}}" % k})
+    nested.append({"name": "NestCnt", "kind": "lua-nested-siblings:counter", "text": "{{#invoke:nest|two}}"})
+    for p in nested[idx::16]:
+        out.append([(p, "expand"), (rd, "expand")])
+    # module-level counters in modules whose NAME is on the retained list (through #invoke and through require)
+    for name, text in (("Cnt retained", "{{#invoke:utils|inc}}"), ("Cnt retained-required", "{{#invoke:cntuser|inc}}")):
+        p = {"name": name, "kind": "lua-counter-retained-name", "text": text}
+        if idx % 2 == 0:
+            out.append([(p, "expand"), (p, "expand"), (rd, "parse_all"), (p, "parse_all")])
+        else:
+            out.append([(rd, "expand"), (p, "parse_all"), (dict(p, name=name + " twice", text=text + " " + text), "expand")])
+    # math.random / math.randomseed
+    seed = {"name": "RndSeed", "kind": "lua-randomseed", "text": "{{#invoke:rnd|seed}}"}
+    both = {"name": "RndSeedPick", "kind": "lua-random-seed+pick", "text": "{{#invoke:rnd|seed}}|{{#invoke:rnd|pick}}"}
+    out.append([(RND_PAGE, "expand"), (RND_PAGE, "expand"), (seed, "expand"), (RND_PAGE, "parse_all"), (both, "expand"), (rd, "expand"), (RND_PAGE, "expand")])
+    return out
 
 
 def db_pages():
@@ -129,9 +228,14 @@ def db_pages():
     out += [("Template:loop", 10, "{{loop}}"), ("Template:l2", 10, "{{l3}}"), ("Template:l3", 10, "{{l2|{{l3}}}}"),
             ("Template:wm", 10, "{{#invoke:mut {{{1}}}|f|p}}"), ("Template:wr", 10, "[{{#invoke:reader|f|n={{{1}}}}}]"),
             ("Module:reader", 828, READER), ("Module:helper", 828, "return {state = 'clean'}"),
-            ("Module:data", 828, "return {x = 'clean'}"), ("Module:bad", 828, "local e = {} error('load boom') return e")]
+            ("Module:data", 828, "return {x = 'clean'}"), ("Module:bad", 828, "local e = {} error('load boom') return e"),
+            ("Module:cnt", 828, COUNTER % "plaincnt"), ("Module:utils", 828, COUNTER % "retainedcnt"),
+            ("Module:utilities", 828, COUNTER % "retainedreq"), ("Module:rnd", 828, RND), ("Module:nest", 828, NEST),
+            ("Module:cntuser", 828, "local e = {}\nfunction e.inc(frame) return require('Module:utilities').inc(frame) end\nreturn e"),
+            ("Template:wc", 10, "[{{#invoke:cnt|inc}}]")]
     for k, b in MUTATORS.items():
-        out.append(("Module:mut " + k, 828, "local e = {}\nfunction e.f(frame)\n" + b + "\nreturn 'done'\nend\nreturn e"))
+        out.append(("Module:mut " + k, 828, "local e = {}\nfunction e.f(frame)\n" + b + "\nreturn 'done'\nend\n"
+                    "function e.g(frame)\n" + b + "\nreturn frame:preprocess('{{#invoke:reader|f|n=nested}}')\nend\nreturn e"))
     return out
 
 
@@ -316,10 +420,20 @@ class BaselineServer:
             pass
 
 
-def foreign_contexts(obs):
+def foreign_contexts(obs, db=None):
     """Contexts with other options, created (and closed) before the history context exists."""
     from wikitextprocessor import Wtp
     made = []
+    if db is not None:
+        try:
+            c = new_ctx(db, "alias")
+            c.start_page("F")
+            with cpu_guard(30):
+                c.expand("{{#invoque:rnd|seed}} {{#invoke:rnd|pick}} {{#invoke:rnd|pick}} {{#invoke:mut global|f}} {{#invoke:mut require-library-field|f}}")
+            c.db_conn.close()
+            obs.count("foreign-contexts-that-ran-lua")
+        except Exception as e:
+            obs.notes.append("foreign Lua context failed: %r" % (e,))
     for kw in ({"extension_tags": {"foo": {"parents": ["phrasing"], "content": ["phrasing"]}, "bar": {"parents": ["flow"], "content": ["flow"]}}},
                {"parser_function_aliases": {"#invoque": "#invoke"}}, {"lang_code": "fr", "project": "wikipedia"}, {"lang_code": "zh"},
                {"template_override_funcs": {"ovr": lambda args: "OVERRIDDEN"}}):
@@ -369,12 +483,23 @@ def run_history(db, hist, base, obs, record=True, cfg="default"):
             leaks = reader_leaks(got)
             if record and "reader" in p["text"]:
                 obs.check("reader-sees-clean-state")
+            rs = None
+            if p["kind"] == "lua-random-seed+pick":
+                # the draw after another invocation's randomseed() on the same page == the draw of a fresh context alone
+                if record:
+                    obs.check("draw-after-seed==fresh-draw")
+                m1 = re.search(r"rnd(\d+)", str(got.get("expansion", "")))
+                m0 = re.search(r"rnd(\d+)", str(base.get([(RND_PAGE, "expand")], cfg)[0].get("expansion", "")))
+                if m1 and m0 and m1.group(1) != m0.group(1):
+                    rs = "random-state:draw-after-seed-on-same-page=%s,fresh-draw=%s" % (m1.group(1), m0.group(1))
             if leaks:
                 # direct oracle (also catches leaks between two invocations on the SAME page, which the
                 # fresh-context baseline shows as well)
                 bad.append((i, "lua-state-leak:" + ",".join(sorted(leaks)), got, want))
             elif d:
                 bad.append((i, d, got, want))
+            elif rs:
+                bad.append((i, rs, got, want))
             prev = [p["name"], op, p["kind"]]
     finally:
         try:
@@ -400,10 +525,30 @@ def minimise(db, hist, i, d, base, obs):
     return hist[: i + 1], "unminimised-prefix"
 
 
-FIELD = re.compile(r"(glob|stringf|strmeta|rep|tablef|mathf|mwf|mwtext|mwtitle|mwustring|helper|loaddata|osf|G|nsdata|pkg|zz|trim|pairs|next)=([A-Za-z0-9]*)")
 CLEAN = {"glob": "nil", "stringf": "nil", "strmeta": "nil", "rep": "abab", "tablef": "nil", "mathf": "nil", "mwf": "nil", "mwtext": "nil",
          "mwtitle": "nil", "mwustring": "nil", "helper": "clean", "loaddata": "clean", "osf": "nil", "G": "nil", "nsdata": "nil", "pkg": "nil",
-         "zz": "nil", "trim": "t", "pairs": "3", "next": "1"}
+         "zz": "nil", "trim": "t", "pairs": "3", "next": "1",
+         "reqlib": "none", "cachedmod": "none", "savedmod": "nil", "maxn": "3", "floor": "2", "libcall": "".join(c + "x" for _, _, c in LIBCALLS),
+         "plaincnt": "1", "retainedcnt": "1", "retainedreq": "1"}
+# (the first twenty alternatives are the original ones, in the original order)
+FIELD = re.compile("(" + "|".join(re.escape(k) for k in CLEAN) + ")=([A-Za-z0-9]*)")
+# what kind of state a reader field shows (used in the signatures of the nested-invocation classes)
+FIELD_CLASS = dict({k: "library-table" for k in ("stringf", "strmeta", "rep", "tablef", "mathf", "mwf", "mwtext", "mwtitle", "mwustring", "trim",
+                                                  "osf", "nsdata", "pkg", "reqlib", "cachedmod", "savedmod", "maxn", "floor", "libcall")},
+                   **{k: "global-variable" for k in ("glob", "G", "zz", "pairs", "next")},
+                   **{k: "module-level-state" for k in ("helper", "plaincnt", "retainedcnt", "retainedreq")}, loaddata="loaddata")
+RETAINED_FIELDS = {"retainedcnt", "retainedreq"}
+RANDOM_SIG = "math.random-state-shared-by-invocations-pages-and-contexts"
+
+
+def leak_sig(field, where):
+    if field in RETAINED_FIELDS:
+        return "state-of-earlier-lua-invocation-visible/module-level-state/module-name-on-retained_modules-list"
+    if where.startswith("nested-"):
+        if field == "loaddata":     # the cached loadData table is writable: same mechanism inside and outside nesting
+            return "state-of-earlier-lua-invocation-visible/loaddata/same-page"
+        return "state-of-earlier-lua-invocation-visible/%s/%s" % (FIELD_CLASS[field], where)
+    return "state-of-earlier-lua-invocation-visible/%s/%s" % (field, where)
 
 
 def reader_leaks(obsv):
@@ -415,6 +560,24 @@ def reader_leaks(obsv):
         if CLEAN.get(m.group(1)) != m.group(2):
             bad.add(m.group(1))
     return bad
+
+
+def reader_fields(obsv):
+    text = " ".join(str(obsv.get(k, "")) for k in ("expansion", "tree", "wikitext"))
+    return sorted({m.group(0) for m in FIELD.finditer(text) if CLEAN.get(m.group(1)) != m.group(2)})[:12]
+
+
+def select_bad(bad, cap=3, extra=4):
+    """The first `cap` differing visits of a history (as before), plus up to `extra` later ones of a kind not yet taken
+    (a class that alarms on every visit must not hide the others)."""
+    out = list(bad[:cap])
+    seen = {b[1] for b in out}
+    for b in bad[cap:]:
+        if extra > 0 and b[1] not in seen:
+            out.append(b)
+            seen.add(b[1])
+            extra -= 1
+    return out
 
 
 def describe(hist):
@@ -434,7 +597,7 @@ def run_shard(spec):
                    "luaexec.call_lua_sandbox": lx.call_lua_sandbox, "core.Wtp.__init__": core.Wtp.__init__})
     base = BaselineServer(db)        # forked BEFORE any context at all exists in this process
     make_db(db)
-    foreign_contexts(obs)
+    foreign_contexts(obs, db)
     pages = corpus(random.Random(12345))
     by_kind = {}
     for p in pages:
@@ -467,26 +630,40 @@ def run_shard(spec):
                               describe([ch[i]]), {k: str(v)[:200] for k, v in got.items() if got.get(k) != want.get(k)},
                               {k: str(v)[:200] for k, v in want.items() if got.get(k) != want.get(k)}),
                           {"history": [[p, op] for p, op in ch[: i + 1]], "cfg": cfg})
+    hists += dedicated(spec["idx"])
     nmin = 0
     for hist in hists:
         bad = run_history(db, hist, base, obs)
-        for i, d, got, want in bad[:3]:
-            if nmin < 25:
+        for i, d, got, want in select_bad(bad):
+            vkind = hist[i][0]["kind"]
+            is_random = vkind.startswith("lua-random") or d.startswith("random-state:")
+            if is_random or (":firstuse-own-" in vkind and not d.startswith("lua-state-leak:")):
+                mh, pred = hist[: i + 1], "not-minimised"
+            elif nmin < 25:
                 nmin += 1
                 mh, pred = minimise(db, hist, i, d, base, obs)
             else:
                 mh, pred = hist[: i + 1], "unminimised-prefix"
             if d.startswith("lua-state-leak:"):
                 where = "same-page" if pred == "same-visit-repeated" or reader_leaks(want) else "later-page"
-                sigs = ["state-of-earlier-lua-invocation-visible/%s/%s" % (f, where) for f in d[15:].split(",")]
+                if where == "same-page" and vkind.startswith("lua-nested-") and not vkind.split(":", 1)[-1].startswith(NOT_NESTING_SPECIFIC):
+                    where = "nested-invocation(%s)" % vkind.split(":")[0][len("lua-nested-"):]
+                sigs = sorted({leak_sig(f, where) for f in d[15:].split(",")})
+            elif is_random:
+                sigs = [RANDOM_SIG]
+            elif ":firstuse-own-" in vkind:
+                # what the page shows depends on whether ITS module or an earlier page was the first user of the libraries
+                sigs = ["visit-differs(%s)/page-whose-module-changes-its-own-environment-after-using-mw-libraries" % d]
             else:
                 sigs = ["visit-differs(%s)/after=%s" % (d, pred.split("/")[0])]
             sig = sigs[0]
             for extra in sigs[1:]:
                 obs.violation(extra, "see " + sig, {"history": [[p, op] for p, op in mh]})
-            obs.violation(sig, "visit %r differs from a fresh context: got %r want %r" % (
+            obs.violation(sig, "visit %r differs from a fresh context: got %r want %r%s" % (
                 describe([hist[i]]), {k: str(v)[:200] for k, v in got.items() if got.get(k) != want.get(k)},
-                {k: str(v)[:200] for k, v in want.items() if got.get(k) != want.get(k)}),
+                {k: str(v)[:200] for k, v in want.items() if got.get(k) != want.get(k)},
+                (" leaking reader fields %s in %r" % (d[15:], reader_fields(got))) if d.startswith("lua-state-leak:") else
+                (" (%s)" % d if d.startswith("random-state:") else "")),
                 {"history": [[p, op] for p, op in mh]})
     base.close()
     obs.anchors.update(anchors.snapshot())
@@ -501,7 +678,7 @@ def replay(case):
     import wikitextprocessor  # noqa: F401
     base = BaselineServer(db)
     make_db(db)
-    foreign_contexts(obs)
+    foreign_contexts(obs, db)
     hist = [(p, op) for p, op in case["history"]]
     bad = run_history(db, hist, base, obs, record=False, cfg=case.get("cfg", "default"))
     base.close()
